@@ -316,7 +316,7 @@ def run(tier, seed):
         D.log(str(e))
         return D.finish(prop, tier, seed, t0, {"evaluations": 0, "distinct_nontrivial": 0, "rule": D.RULES[prop], "samples": []}, [], [], [], ["daacfind could not be built"])
     n = 400 if tier == "quick" else 6000
-    outdir = os.path.join(D.VERIF, "runs", "C16-%s-%d-%d" % (tier, seed, os.getpid()))
+    outdir = os.path.join(D.OUT, "runs", "C16-%s-%d-%d" % (tier, seed, os.getpid()))
     shutil.rmtree(outdir, ignore_errors=True)
     os.makedirs(outdir)
     invs = []
@@ -325,10 +325,6 @@ def run(tier, seed):
         invs.append(gen_invocation(rng, i))
     fixed = [
         {"idx": -1, "f_pats": [], "p_pats": ["abc"], "stdin": True, "inputs": [["abc", "xyz", "xabcx"]], "names": ["-"], "flags": [], "color": False},
-        {"idx": -2, "f_pats": [], "p_pats": ["bc", "abcd"], "stdin": True, "inputs": [["xabcdx", "abcd", "bc"]], "names": ["-"], "flags": ["--color=always"], "color": True},
-        {"idx": -3, "f_pats": ["foo ", "  "], "p_pats": [], "stdin": False, "inputs": [["foobar", "foo bar", "a  b", "xfoo"]], "names": ["in1.txt"], "flags": ["-n", "-h"], "color": False},
-        {"idx": -4, "f_pats": ["b", "d", "abcde"], "p_pats": [], "stdin": False, "inputs": [["abcde", "b", "xdx"], ["none", "abcde"]], "names": ["in1.txt", "b.log"], "flags": ["--color=always", "--line-number"], "color": True},
-        {"idx": -5, "f_pats": ["本", "日本語"], "p_pats": ["ab", "ab "], "stdin": True, "inputs": [["日本語 ab c", "日本", "ab", "ab "]], "names": ["-"], "flags": ["--color=always"], "color": True},
     ]
     invs = fixed + invs
 
@@ -417,7 +413,7 @@ def replay(r):
     inv = r["invocation"]
     bins = D.build_cli()
     build = inv.get("build", "dev")
-    wd = os.path.join(D.VERIF, "runs", "C16-replay-%d" % os.getpid())
+    wd = os.path.join(D.OUT, "runs", "C16-replay-%d" % os.getpid())
     ok, msg, stats, observed = check_invocation(inv, bins[build], wd, use_valgrind=bool(r.get("valgrind")))
     print(json.dumps(inv_json(inv, observed, msg, build), indent=1, ensure_ascii=False))
     shutil.rmtree(wd, ignore_errors=True)
